@@ -1652,6 +1652,31 @@ func (fx *FnExec) execSelect(st *State, in *ssa.Select) {
 		v.Tup = append(v.Tup, e.freshVal(st, "recv", tup.At(i).Type()))
 	}
 	fx.setReg(st, in, v)
+	// close-only channels (directive `closeonly T.field`): nobody sends on them, so a receive case is taken only when
+	// the channel is closed, and the default case of a non-blocking select means it is still open
+	for i, s := range in.States {
+		if s.Dir != types.RecvOnly {
+			continue
+		}
+		if u, ok := s.Chan.(*ssa.UnOp); ok {
+			if fa, ok := u.X.(*ssa.FieldAddr); ok {
+				if pt, ok := fa.X.Type().Underlying().(*types.Pointer); ok {
+					if n, ok := pt.Elem().(*types.Named); ok && n.Obj().Pkg() != nil {
+						if su, ok := n.Underlying().(*types.Struct); ok {
+							key := n.Obj().Pkg().Path() + "." + n.Obj().Name() + "." + su.Field(fa.Field).Name()
+							if _, co := e.w.spec.CloseOnly[key]; co {
+								cl := sel(e.heapGet(st, e.keyChanClosed()), chans[i])
+								e.assume(st, implies(fmt.Sprintf("(= %s %d)", idx, i), cl))
+								if !in.Blocking {
+									e.assume(st, implies("(= "+idx+" (- 1))", not(cl)))
+								}
+							}
+						}
+					}
+				}
+			}
+		}
+	}
 	// selected(): the channel of the case the most recent select took (0 for the default case)
 	selCh := "0"
 	for i := len(chans) - 1; i >= 0; i-- {
